@@ -30,8 +30,17 @@
 (* "not given" in t_epoch / t_obs (as in the operator's gamut) and for an  *)
 (* undefined tuple epoch.                                                  *)
 (*                                                                         *)
-(* NOT modelled (not claimed): that R is a proper rotation in exact mode,  *)
-(* scaling of distances, the second-order error of the small-angle         *)
+(*  5. exact mode: the linear part is (1 + s(t)) times a proper rotation.  *)
+(*     The trigonometry is not computed here; what the specification       *)
+(*     fixes is the obligation and its integer part: for every accepted    *)
+(*     exact core with rotations (`iso` in the exported record) the images *)
+(*     of an orthogonal frame are orthogonal, of equal length              *)
+(*     (1 + ppm(t) * 1e-6) times the original (the reciprocal in the       *)
+(*     inverse direction) and right-handed, with ppm(t) = S + (t - t_epoch)*)
+(*     * DS evaluated at the tuple's epoch (IsoPpm) - "distances between   *)
+(*     transformed points are the original distances times the scale".     *)
+(*                                                                         *)
+(* NOT modelled (not claimed): the second-order error of the small-angle   *)
 (* inverse, Molodensky.                                                    *)
 (***************************************************************************)
 EXTENDS Values, Json
@@ -361,6 +370,10 @@ SpellingTexts(c) == {DefText(c, sp) : sp \in (IF AllGroups(c) THEN Spellings ELS
 \* is the exact-mode transposition pair observable (no translation, unit scale)?
 Bare(c) == c.T = Zero3 /\ c.DT = Zero3 /\ c.S = 0 /\ c.DS = 0
 
+\* the scale (ppm) a tuple of epoch e is transformed with: folded already when t_obs is given
+IsoPpm(e) == IF P0.dynamic /\ ~P0.fixed THEN P0.S + (e - core.tep) * P0.DS ELSE P0.S
+IsoInv == (AtStart /\ P0.ok /\ P0.fixed) => \A e \in RealEpochs : IsoPpm(e) = core.S + (core.tobs - core.tep) * core.DS
+
 EmitDef == AtStart =>
     PrintT(<<"DEF", ToJson([
         def     |-> DefText(core, CanonSp),
@@ -378,7 +391,10 @@ EmitDef == AtStart =>
         flip    |-> IF P0.ok /\ P0.rotated /\ ~core.exact THEN DefText(Flip(core), CanonSp) ELSE "",
         transp  |-> IF P0.ok /\ P0.rotated /\ core.exact /\ Bare(core)
                     THEN DefText([core EXCEPT !.conv = Other(core.conv)], CanonSp) ELSE "",
-        epochs  |-> RealEpochs
+        epochs  |-> RealEpochs,
+        \* exact mode: a similarity; its scale in ppm at each epoch of the pool
+        iso     |-> P0.ok /\ P0.rotated /\ core.exact,
+        isoppm  |-> IF P0.ok /\ P0.rotated /\ core.exact THEN {<<e, IsoPpm(e)>> : e \in RealEpochs} ELSE {}
     ])>>)
 
 EmitRun == phase = "done" =>
